@@ -274,8 +274,34 @@ def _size_measure(tree, ob):
     return n
 
 
+def _absent_item_encodes(tree, ob):
+    ''' the cutter measures the fragment with its block data taken away and counts one octet for the absent byte string
+    ("N - 1").  That octet is the null BstrField.i2m(None) gives; CborArray.self_build() leaves a field out altogether
+    when its encoder raises, so an encoder that refuses None makes the measurement one octet short. '''
+    from .. import absint
+    rel = 'scapy_cbor/fields.py'
+    for cname in ('BstrField', 'UintField'):
+        cls = tree.klass(rel, cname)
+        ms = [x for x in cls.body if isinstance(x, ast.FunctionDef) and x.name == 'i2m']
+        if not ms:
+            ob.site(rel, cls, cname + ': i2m inherited')
+            continue
+        m = ms[0]
+        try:
+            out = absint.run(m.body, {m.args.args[2].arg: None}, {'self.name': 'field', 'self.maxval': None})
+        except AnalysisError as err:
+            ob.undetermined.append('{}.i2m(None) not folded: {}'.format(cname, err))
+            continue
+        if out.kind == 'raise':
+            ob.violate(rel, cname + '.i2m', 'i2m(None)', 'the encoder refuses "no value" instead of encoding it as null: the array builder leaves the field out, so a block whose data was taken away '
+                       'encodes one item (one octet) short, the cutter measures N one too small and every fragment whose byte-string head is as long as that of the total length leaves one octet over the MTU', out.node or m, sure=True)
+        else:
+            ob.site(rel, m, cname + '.i2m(None) gives an item (null), the field is never left out')
+
+
 def c05d(tree, ob):
     _size_measure(tree, ob)
+    _absent_item_encodes(tree, ob)
     fv = FuncView(tree, FRAG, Q)
     loop = _loop(fv, ob)
     til = tiling(fv, loop, _Mute(), FRAG, 'fragment tiling')
